@@ -44,6 +44,10 @@ MUTANTS = [
     ("codec-read-type-dispatch-swapped", "C11", "static", "mypy/types.py", "    if tag == UNION_TYPE:\n        return UnionType.read(data)", "    if tag == UNION_TYPE:\n        return TupleType.read(data)", "violation"),
     ("codec-var-flag-order-swapped", "C11", "nodes.Var", "mypy/nodes.py", "            v.is_initialized_in_class,\n            v.is_staticmethod,\n            v.is_classmethod,", "            v.is_initialized_in_class,\n            v.is_classmethod,\n            v.is_staticmethod,", "violation"),
     ("codec-state-dep-hashes-as-line-map", "C07", "State", "mypy/build.py", "            dep_line_map=dep_line_map,\n            dep_hashes=dep_hashes,\n            error_lines=[],", "            dep_line_map=priorities,\n            dep_hashes=dep_hashes,\n            error_lines=[],", "violation"),
+    ("validate-meta-size-check-dropped", "C02", "validate_meta", "mypy/build.py", "    if size != meta.size and not bazel and not fine_grained_cache:", "    if False and size != meta.size and not bazel and not fine_grained_cache:", "violation"),
+    ("validate-meta-data-mtime-weakened", "C02", "validate_meta", "mypy/build.py", "        if data_mtime != meta.data_mtime:", "        if data_mtime < meta.data_mtime:", "violation"),
+    ("validate-meta-hash-of-old-path", "C02", "validate_meta", "mypy/build.py", "                source_hash = manager.fscache.hash_digest(path)", "                source_hash = manager.fscache.hash_digest(meta.path)", "violation"),
+    ("validate-meta-restamp-without-hash-match", "C02", "validate_meta", "mypy/build.py", "        if source_hash != meta.hash:\n            if fine_grained_cache:", "        if source_hash != meta.hash and size != meta.size:\n            if fine_grained_cache:", "violation"),
     ("enabled-parent-check-dropped", "C13", "is_error_code_enabled", "mypy/errors.py", "elif error_code.sub_code_of is not None and error_code.sub_code_of in current_mod_disabled:\n            return False", "elif error_code.sub_code_of is not None and error_code.sub_code_of in current_mod_enabled:\n            return False", "violation"),
 ]
 
